@@ -68,7 +68,7 @@ def poly_str(coefs):
     return " + ".join(terms) if terms else "0"
 
 
-def solver_dict(n, P, init):
+def solver_dict(n, P, init, order=None):
     names = VARS[:n]
     props = {}
     upd = {}
@@ -80,9 +80,21 @@ def solver_dict(n, P, init):
                 props[key] = poly_str(P[i][j])
                 ts.append("%s*%s" % (key, names[j]))
         upd[names[i]] = " + ".join(ts) if ts else "0"
-    return {"solver": "analytical", "state_variables": names,
-            "initial_values": {names[i]: str(init[i]) for i in range(n)},
-            "propagators": props, "update_expressions": upd}
+    d = {"solver": "analytical", "state_variables": names,
+         "initial_values": {names[i]: str(init[i]) for i in range(n)},
+         "propagators": props, "update_expressions": upd}
+    # the order of the keys inside the three dictionaries is presentation (e.g. a dictionary stored with sort_keys and reloaded)
+    if order is not None:
+        for key in ("initial_values", "propagators", "update_expressions"):
+            ks = list(d[key].keys())
+            if order == "reversed":
+                ks.reverse()
+            elif order == "sorted":
+                ks.sort()
+            else:
+                random.Random(order).shuffle(ks)
+            d[key] = {k_: d[key][k_] for k_ in ks}
+    return d
 
 
 def gen_history(rng, n, nops, horizon=64):
@@ -213,18 +225,19 @@ def run(ctx):
         N, P = gen_flow(rng, n)
         init = [rng.randint(-3, 5) for _ in range(n)]
         hs = [gen_history(rng, n, rng.randint(1, maxops)) for _ in range(nhist)]
-        tasks.append({"fn": "c12.impl_run", "solver_dict": solver_dict(n, P, init), "histories": hs, "timeout": 600 if quick else 2400})
+        order = [None, "reversed", "sorted", "shuffle-%d" % rng.randint(0, 999)][k % 4]
+        tasks.append({"fn": "c12.impl_run", "solver_dict": solver_dict(n, P, init, order), "histories": hs, "timeout": 600 if quick else 2400})
         meta.append((n, N, P, init, hs))
     results = C.run_tasks(tasks, timeout=600)
     cases = []
     caseinfo = []
     probe_failures = []
     corr_errors = []
-    dist = {"dims": {}, "ops": {"G": 0, "E": 0, "D": 0, "R": 0}, "caching_on": 0, "histories": 0,
+    dist = {"dims": {}, "key_orders_of_the_solver_dictionaries": ["as returned", "reversed", "sorted", "shuffled"], "ops": {"G": 0, "E": 0, "D": 0, "R": 0}, "caching_on": 0, "histories": 0,
             "backward_queries": 0, "queries_at_spike_times": 0, "coincident_spike_times": 0, "negative_or_zero_spikes": 0}
     nontrivial = set()
     samples = []
-    for (n, N, P, init, hs), res in zip(meta, results):
+    for mi, ((n, N, P, init, hs), res) in enumerate(zip(meta, results)):
         if res.get("outcome") != "Ok":
             corr_errors.append("implementation run failed: %s %s" % (res.get("outcome"), res.get("detail", "")[:300]))
             continue
@@ -261,7 +274,7 @@ def run(ctx):
                             probe_failures.append({
                                 "key": "get_value history " + C.stable_hash([N, ini, h]),
                                 "what": "get_value(%s) returned %s, exact solution is %s" % (float(t * TICK), [str(x) for x in obs[gi]], [str(x) for x in exp]),
-                                "replay": {"N": N, "solver_dict": solver_dict(n, P, init), "tick": str(TICK), "history": h, "query_index": gi}})
+                                "replay": {"N": N, "solver_dict": tasks[mi]["solver_dict"], "tick": str(TICK), "history": h, "query_index": gi}})
                     gi += 1
             if nt or len(alltimes) > 1:
                 nontrivial.add(C.stable_hash([N, ini, h]))
